@@ -242,15 +242,19 @@ pub fn calc_twap(
         }
 
         current_snapshot = read_reserve_snapshot(deps.storage, params.snapshot_index).unwrap();
-        let current_price = get_price_with_specific_snapshot(deps, params.clone())?;
 
         if current_snapshot.timestamp.seconds() <= base_timestamp {
             let delta_timestamp =
                 Uint128::from(previous_timestamp.checked_sub(base_timestamp).unwrap());
 
-            weighted_price = weighted_price
-                .checked_add(current_price.checked_mul(delta_timestamp).unwrap())
-                .unwrap();
+            // a snapshot that was in effect for no time has no part in the average and is not
+            // priced (its reserves may not even be able to fill the trade)
+            if !delta_timestamp.is_zero() {
+                let current_price = get_price_with_specific_snapshot(deps, params.clone())?;
+                weighted_price = weighted_price
+                    .checked_add(current_price.checked_mul(delta_timestamp).unwrap())
+                    .unwrap();
+            }
 
             break;
         }
@@ -260,9 +264,12 @@ pub fn calc_twap(
                 .checked_sub(current_snapshot.timestamp.seconds())
                 .unwrap(),
         );
-        weighted_price = weighted_price
-            .checked_add(current_price.checked_mul(delta_timestamp).unwrap())
-            .unwrap();
+        if !delta_timestamp.is_zero() {
+            let current_price = get_price_with_specific_snapshot(deps, params.clone())?;
+            weighted_price = weighted_price
+                .checked_add(current_price.checked_mul(delta_timestamp).unwrap())
+                .unwrap();
+        }
 
         period = period.checked_add(delta_timestamp).unwrap();
         previous_timestamp = current_snapshot.timestamp.seconds();
